@@ -782,6 +782,24 @@ class Evaluator:
                     isinstance(a.val, tuple) and a.val[0] == 'day':
                 k = b.val[1] if isinstance(node.op, ast.Add) else -b.val[1]
                 return AV(a.kind, val=('day', a.val[1] + k), origin=a.origin)
+            if isinstance(node.op, (ast.Add, ast.Sub)) and a.kind in ('date', 'datetime') and b.kind == 'timedelta' and \
+                    isinstance(a.val, tuple) and a.val[0] == 'ymd' and isinstance(b.val, tuple) and b.val[0] in ('rel', 'days'):
+                import datetime as _dt
+                import calendar as _cal
+                sg = 1 if isinstance(node.op, ast.Add) else -1
+                yy, mm, dd = a.val[1:]
+                ry, rm, rd = (b.val[1], b.val[2], b.val[3]) if b.val[0] == 'rel' else (0, 0, b.val[1])
+                k_ = (yy + sg * ry) * 12 + (mm - 1) + sg * rm          # years and months first, the day clipped to the month, then days
+                yy, mm = divmod(k_, 12)
+                mm += 1
+                try:
+                    if not 1 <= yy <= 9999:
+                        raise ValueError('year is out of range')
+                    dd = min(dd, _cal.monthrange(yy, mm)[1])
+                    res_ = _dt.date(yy, mm, dd) + _dt.timedelta(days=sg * rd)
+                except (ValueError, OverflowError) as e_:
+                    raise AbsRaise(type(e_).__name__, str(e_))
+                return AV(a.kind, val=('ymd', res_.year, res_.month, res_.day), origin=a.origin)
             if isinstance(node.op, ast.Sub) and a.kind in ('date', 'datetime') and a.kind == b.kind and isinstance(a.val, tuple) and \
                     isinstance(b.val, tuple) and a.val[0] == 'day' and b.val[0] == 'day':
                 return AV('timedelta', val=('days', a.val[1] - b.val[1]))
@@ -1154,6 +1172,35 @@ class Evaluator:
             v = self.ev(node.args[0], env)
             if v.kind in ('int', 'float'):
                 return replace(v, sign='zero' if v.sign == 'zero' else 'pos' if v.sign else None)
+        if ast.unparse(f) in ('trunc', 'math.trunc', 'math.floor', 'math.ceil', 'floor', 'ceil') and len(node.args) == 1 and not node.keywords:
+            v0 = self.ev(node.args[0], env)
+            if v0.kind in ('int', 'float', 'bool') and isinstance(v0.val, (int, float)):
+                import math as _math
+                try:
+                    return const_av(getattr(_math, ast.unparse(f).split('.')[-1])(v0.val))
+                except (ValueError, OverflowError) as e_:
+                    raise AbsRaise(type(e_).__name__, str(e_))
+            if v0.kind not in ('int', 'float', 'bool'):
+                raise AbsRaise('TypeError', f'{ast.unparse(f)} of {v0.kind}')
+            if ast.unparse(f).split('.')[-1] == 'trunc':
+                return to_int(v0)
+            raise Unknown(ast.unparse(f))
+        if ast.unparse(f) in ('calendar.monthrange', 'monthrange') and len(node.args) == 2:
+            y_, m_ = self.ev(node.args[0], env), self.ev(node.args[1], env)
+            if isinstance(y_.val, int) and isinstance(m_.val, int):
+                import calendar as _cal
+                try:
+                    r_ = _cal.monthrange(y_.val, m_.val)
+                except Exception as e_:
+                    raise AbsRaise(type(e_).__name__, str(e_))
+                return AV('tuple', items=(const_av(r_[0]), const_av(r_[1])))
+            raise Unknown('monthrange of an unknown month')
+        if ast.unparse(f).split('.')[-1] == 'relativedelta' and not node.args:
+            kw = {k.arg: self.ev(k.value, env) for k in node.keywords}
+            if set(kw) - {'years', 'months', 'days'} or not all(isinstance(v_.val, int) and not isinstance(v_.val, bool) for v_ in kw.values()):
+                raise Unknown('relativedelta')
+            return AV('timedelta', val=('rel', kw['years'].val if 'years' in kw else 0, kw['months'].val if 'months' in kw else 0,
+                                        kw['days'].val if 'days' in kw else 0))
         if isinstance(f, ast.Attribute):
             # self.method(...)
             if isinstance(f.value, ast.Name) and f.value.id == 'cls' and f.attr in self.members:
@@ -1186,7 +1233,20 @@ class Evaluator:
             if txt == 'datetime.datetime' or txt == 'datetime.datetime.combine':
                 args = [self.ev(a, env) for a in node.args]
                 origin = next((a.origin for a in args if a.origin), '')
-                return AV('datetime', val='midnight' if len(node.args) == 3 or txt.endswith('combine') else None, origin=origin)
+                if txt == 'datetime.datetime' and len(args) < 3 and node.keywords:
+                    kw_ = {k.arg: self.ev(k.value, env) for k in node.keywords if k.arg}
+                    names_ = ['year', 'month', 'day']
+                    if set(kw_) <= set(names_[len(args):]) and len(args) + len(kw_) == 3:
+                        args = args + [kw_[n_] for n_ in names_[len(args):]]
+                if txt == 'datetime.datetime' and len(args) == 3 and len([k for k in node.keywords if k.arg not in ('year', 'month', 'day')]) == 0 and \
+                        all(isinstance(a.val, int) and not isinstance(a.val, bool) for a in args):
+                    import datetime as _dt
+                    try:
+                        _dt.datetime(*[a.val for a in args])
+                    except (ValueError, OverflowError) as e_:
+                        raise AbsRaise(type(e_).__name__, str(e_))
+                    return AV('datetime', val=('ymd',) + tuple(a.val for a in args), origin=origin)
+                return AV('datetime', val='midnight' if len(args) == 3 or txt.endswith('combine') else None, origin=origin)
             if txt == 're.compile' and node.args and isinstance(node.args[0], ast.Constant) and isinstance(node.args[0].value, str):
                 import re as _re
                 flags = 0
